@@ -159,4 +159,97 @@ Proof.
     intros Hi. apply Hnk. right. exact Hi.
 Qed.
 
+(* effective sets shrink on the way down *)
+Lemma eff_mono_down w x a i sa si : Core w -> In x (w_models w) -> FilesInvM T w x -> Reach w (m_root x) a ->
+  Reach w a i -> Eff w a sa -> Eff w i si -> incl si sa.
+Proof.
+  intros C Hx FI Hra Hr. revert si. induction Hr as [_|p c Hp IH Hl]; intros si Ha Hi.
+  - rewrite (Eff_fun _ _ _ Hi _ Ha). apply incl_refl.
+  - destruct (c_up _ C _ _ Hl) as (cn & Hcn & Hpar).
+    assert (Reach w (m_root x) c) as Hrc by (eapply reach_trans; [exact Hra|]; eapply R_kid; eauto).
+    destruct (n_files cn) as [|g0 l0] eqn:Ef.
+    + destruct (Eff_up_inv _ _ _ _ Hi Hcn Ef) as (p' & Hp' & Hsp). assert (p' = p) by congruence. subst. apply IH; auto.
+    + assert (n_files cn <> []) as Hne by congruence.
+      assert (si = n_files cn) as -> by (eapply Eff_local_inv; eauto).
+      destruct (fi_par _ _ _ FI c cn p Hrc Hcn Hne Hpar) as (sp & Hsp & Hincl).
+      eapply incl_tran; [exact Hincl|]. apply IH; auto.
+Qed.
+
+(* what remove_file keeps: an element that is attributed to another file stays, with the same other files *)
+Theorem remove_file_keeps m f w r w' x :
+  TreeInv w -> FilesInv T w ->
+  Known_root_last w (OpRemoveFile m f) = false -> Unowned w (OpRemoveFile m f) = false -> last_file w (OpRemoveFile m f) = false ->
+  m_remove_file T m f w = Val (r, w') -> model_b w m = Some x ->
+  forall i g, Reach w (m_root x) i -> g <> f -> Attributed w i g ->
+    Reach w' (m_root x) i /\ forall h, h <> f -> (Attributed w i h <-> Attributed w' i h).
+Proof.
+  intros TI FI HK HU HL H Hmx i g Hri Hgf Hag. pose proof TI as (C & NO & _).
+  destruct (remove_file_shape T m f w r w' TI FI HK HU HL H) as [(-> & _)|(x0 & cur & w1 & w3 & td & r3 & Hx0 & Hxin & Hfin & Hn1 & ST1 & Hcur & Hrest & S & TI3 & FI3 & Hdel & Htd)].
+  { split; auto. intros h _. tauto. }
+  assert (x0 = x) by congruence. subst x0. pose proof (FI x Hxin) as FIx.
+  pose proof TI3 as (C3 & NO3 & _).
+  assert (same_tree w w3) as ST3 by (eapply same_tree_trans; [exact ST1|apply (st_tree _ _ _ _ _ S)]).
+  pose proof (fun a b => proj1 (reach_same_tree_iff w w3 a b ST3)) as R13.
+  pose proof (fun a b => proj2 (reach_same_tree_iff w w3 a b ST3)) as R31.
+  (* the root's own set is cur *)
+  destruct (root_node _ _ C Hxin) as (rn & k & Hrn & Hrp).
+  assert (cur = n_files rn) as Ecur.
+  { destruct (n_files rn) as [|g0 l0] eqn:Ef.
+    - destruct (Eff_up_inv _ _ _ _ Hcur Hrn Ef) as (p & Hp & _). congruence.
+    - rewrite <- Ef. eapply Eff_local_inv; eauto. congruence. }
+  (* every reached node of w3 is the node of w with f removed from its set *)
+  assert (forall a n, Reach w (m_root x) a -> w_nodes w a = Some n -> w_nodes w3 a = Some (set_files n (set_remove f (n_files n)))) as N3.
+  { intros a n Hra Hn. destruct (st_node _ _ _ _ _ S a n) as (fs & H3 & He & Hin & _); [rewrite Hn1; auto|].
+    rewrite H3. destruct (N.eq_dec a (m_root x)) as [->|Hne].
+    - rewrite (He eq_refl). assert (n = rn) by congruence. subst n. rewrite Ecur. reflexivity.
+    - rewrite (Hin Hne); auto. apply (reach_same_tree w w1); auto. }
+  (* i and its ancestors are below no deleted element *)
+  destruct Hag as (si & Hsi & Hgi).
+  assert (forall a, Reach w (m_root x) a -> Reach w a i -> forall d, In d td -> ~ Reach w3 d a) as NotGone.
+  { intros a Hra Hai d Hd Hda. apply R31 in Hda.
+    destruct (Htd d Hd) as (Hrd & nd & Hnd & Hne & Hem).
+    assert (Eff w d (n_files nd)) as Hed by (constructor; auto).
+    assert (incl si (n_files nd)) as Hi by (eapply (eff_mono_down w x d i); eauto; eapply reach_trans; eauto).
+    pose proof (Hi g Hgi) as Hgd. assert (In g (set_remove f (n_files nd))) as Hc by (apply set_remove_in; auto).
+    rewrite Hem in Hc. destruct Hc. }
+  destruct (del_outside td w3 r3 w' TI3 FI3 Hdel) as (_ & KO).
+  (* the path to i survives *)
+  assert (forall a, Reach w (m_root x) a -> Reach w a i -> Reach w' (m_root x) a /\
+            exists n n', w_nodes w a = Some n /\ w_nodes w' a = Some n' /\ n_files n' = set_remove f (n_files n) /\ n_parent n' = n_parent n) as Path.
+  { intros a Hra. induction Hra as [Ha|p c Hp IH Hl]; intros Hai.
+    - destruct Ha as (n & Hn). pose proof (N3 _ _ (R_self _ _ (ex_intro _ n Hn)) Hn) as H3.
+      destruct (KO (m_root x) _ (NotGone _ (R_self _ _ (ex_intro _ n Hn)) Hai) H3) as (n' & Hn' & Fs & Pp & _).
+      split; [constructor; exists n'; auto|]. exists n, n'. repeat split; auto.
+    - assert (Reach w (m_root x) c) as Hrc by (eapply R_kid; eauto).
+      assert (Reach w p i) as Hpi by (eapply reach_trans; [|exact Hai]; eapply R_kid; [constructor|exact Hl]; destruct Hl as (pn & Hpn & _); exists pn; auto).
+      destruct (IH Hpi) as (Hrp' & pn & pn' & Hpn & Hpn' & _).
+      destruct (reach_alloc _ _ _ C Hrc) as (cn & Hcn).
+      pose proof (N3 _ _ Hrc Hcn) as H3c. pose proof (N3 _ _ Hp Hpn) as H3p.
+      destruct (KO c _ (NotGone _ Hrc Hai) H3c) as (cn' & Hcn' & Fs & Pp & _).
+      destruct (KO p _ (NotGone _ Hp Hpi) H3p) as (pn'' & Hpn'' & _ & _ & _ & Kk).
+      assert (pn'' = pn') by congruence. subst pn''.
+      split.
+      + eapply R_kid; [exact Hrp'|]. exists pn'. split; auto. apply Kk.
+        * destruct Hl as (pn0 & Hpn0 & Hc). assert (pn0 = pn) by congruence. subst. exact Hc.
+        * intros Hct. apply (NotGone c Hrc Hai c Hct). constructor. apply (allocated_same_tree w w3); auto. exists cn; auto.
+      + exists cn, cn'. repeat split; auto. }
+  assert (Reach w i i) as Hii by (constructor; eapply reach_alloc; eauto).
+  destruct (Path i Hri Hii) as (Hri' & _). split; auto.
+  (* the effective set of i in w' is (that in w) minus f *)
+  assert (forall a s, Eff w a s -> Reach w (m_root x) a -> Reach w a i -> In g s -> Eff w' a (set_remove f s)) as E'.
+  { intros a s He. induction He as [a n Hn Hf | a n p s Hn Hf Hp He IH]; intros Hra Hai Hgs.
+    - destruct (Path a Hra Hai) as (_ & n0 & n' & Hn0 & Hn' & Fs & _). assert (n0 = n) by congruence. subst n0.
+      rewrite <- Fs. constructor; auto. rewrite Fs. intros E. assert (In g (set_remove f (n_files n))) as Hc by (apply set_remove_in; auto).
+      rewrite E in Hc. destruct Hc.
+    - destruct (Path a Hra Hai) as (_ & n0 & n' & Hn0 & Hn' & Fs & Pp). assert (n0 = n) by congruence. subst n0.
+      assert (par w a p) as Hpar by (exists n; auto).
+      destruct (reach_par _ _ _ _ C Hxin Hra Hpar) as (Hrpp & Hlp).
+      apply (Eff_up w' a n' p (set_remove f s) Hn'); [rewrite Fs, Hf; reflexivity | rewrite Pp; exact Hp | ].
+      apply IH; auto. eapply reach_trans; [|exact Hai]. eapply R_kid; [constructor; destruct Hlp as (pn & Hpn & _); exists pn; auto|exact Hlp]. }
+  pose proof (E' i si Hsi Hri Hii Hgi) as Hsi'.
+  intros h Hhf. split.
+  - intros (s & Hs & Hh). rewrite (Eff_fun _ _ _ Hs _ Hsi) in Hh. exists (set_remove f si). split; auto. apply set_remove_in. auto.
+  - intros (s' & Hs' & Hh). rewrite (Eff_fun _ _ _ Hs' _ Hsi') in Hh. apply set_remove_in in Hh as (_ & Hh). exists si. auto.
+Qed.
+
 End Exact.
